@@ -48,6 +48,7 @@ class Routing(SM.Monitor):
         ev.pre['c16'] = None
         ep = ev.ep
         ev.pre['table_ids'] = [id(s) for s in ep.sas] if ep is not None else []
+        ev.pre['table_objs'] = list(ep.sas) if ep is not None and ep.up else []
         d = ev.dgram
         if d is not None and len(d.data) >= 28:
             h = W.dec_header(d.data)
@@ -75,6 +76,13 @@ class Routing(SM.Monitor):
         erouted = w.event_routing[self.epos:]
         self.epos = len(w.event_routing)
         pre = ev.pre.get('c16')
+        if ep is not None and ep.up and ev.kind not in ('crash', 'restart'):
+            # "lists every IKE_SA the endpoint still holds": an IKE_SA leaves the table only when it has ended
+            for sa in ev.pre.get('table_objs', []):
+                if not any(x is sa for x in ep.sas) and sa.state != State.DELETED:
+                    sim.fail(f'table-lost-live-ike-sa:{sa.state.name}',
+                             f'during {SM.describe(ev)} an IKE_SA in state {sa.state.name} (local SPI {bytes(sa.my_spi).hex()}) '
+                             f'disappeared from the table of endpoint {ep.name} although it has not ended')
         if ep is not None:
             self.max_concurrent = max(self.max_concurrent, len([s for s in ep.sas if s.state >= State.ESTABLISHED]))
         if pre is not None:
